@@ -142,7 +142,7 @@ def p_norm_contract(p_kind):
         return []
 
     def hints_flat(st):
-        # A7 (real-analysis facts about the library functions, instantiated at this segment): for u = 1 + t > 0
+        # A8 (real-analysis facts about the library functions, instantiated at this segment): for u = 1 + t > 0
         #   exp((p+1) * log(u)) == u^(p+1)          and          u^(p+1) * big^(p+1) == (u * big)^(p+1) = small^(p+1)
         from pyvc.models import NP
         e = st.eng
